@@ -444,11 +444,71 @@ def currently_exiting_context(frame: types.FrameType) -> Optional[ExitingContext
         # - if the with stmt has no body, there might be a NOP to attach
         #   line number information to
         # Neither of these are covered by the exception handler block.
-        for _, end, target, *_ in _parse_exception_table(frame.f_code):
-            if end == offs or (
-                end == offs - 2 and code[offs] in (op["SWAP"], op["NOP"])
-            ):
-                return ExitingContext(is_async=is_async, cleanup_offset=target)
+        # That instruction need not be the one physically preceding the
+        # LOAD_CONSTs, though: if the body of the with block ends in a
+        # compound statement or a conditional jump, the __exit__ call
+        # sequence is reached by jumping. So, look at every instruction
+        # that can transfer control to the first LOAD_CONST, find the
+        # innermost with block whose handler covers each of them, and
+        # take the most deeply nested of those.
+        seq_start = offs + 2
+        table = list(_parse_exception_table(frame.f_code))
+
+        def enclosing_with_handler(pos: int) -> Optional[Tuple[int, int]]:
+            for _ in range(len(table) + 1):
+                for start, end, target, depth, _ in table:
+                    if start <= pos <= end:
+                        break
+                else:
+                    return None
+                if (
+                    code[target] == op["PUSH_EXC_INFO"]
+                    and code[target + 2] == op["WITH_EXCEPT_START"]
+                ):
+                    return depth, target
+                pos = target
+            return None  # pragma: no cover
+
+        no_fallthrough = {
+            op.get(name)
+            for name in (
+                "RETURN_VALUE",
+                "RETURN_CONST",
+                "RAISE_VARARGS",
+                "RERAISE",
+                "JUMP_FORWARD",
+                "JUMP_BACKWARD",
+                "JUMP_BACKWARD_NO_INTERRUPT",
+            )
+        }
+        insns = list(dis.get_instructions(frame.f_code))
+
+        def predecessors(pos: int) -> Iterator[int]:
+            prev = None
+            for insn in insns:
+                if insn.opcode in dis.hasjrel and insn.argval == pos:
+                    yield insn.offset
+                if insn.offset < pos:
+                    prev = insn
+            if prev is not None and prev.opcode not in no_fallthrough:
+                yield prev.offset
+
+        candidates = []
+        todo = [seq_start]
+        seen = set()
+        while todo:
+            for pred in predecessors(todo.pop()):
+                if pred in seen:
+                    continue
+                seen.add(pred)
+                found = enclosing_with_handler(pred)
+                if found is not None:
+                    candidates.append(found)
+                if code[pred] in (op["SWAP"], op["NOP"]):
+                    # These might be outside the with block, look further
+                    todo.append(pred)
+        if candidates:
+            return ExitingContext(is_async=is_async, cleanup_offset=max(candidates)[1])
         warnings.warn(
             f"Surprise during analysis of {frame.f_code!r}: couldn't find an "
             f"exception table entry ending at {offs} just before the call to "
